@@ -15,7 +15,7 @@ PID = "C10"
 LEVEL = "exploration"
 TECHNIQUE = "generated scope trees with record operations (several metric types, merge-function family) in interleaved tasks; reference left fold / depth-first fold over the harness's own event log"
 RULE = (
-    "cases are scope trees (<=6 scopes, sync/async, some in spawned tasks) with record operations of 3 metric types at "
+    "cases are scope trees (<=6 scopes, or one scope with 5..45 nested ones; sync/async, some in spawned tasks, some empty or only grouping) with record operations of 5 metric types at "
     "generated positions, merge in {default replace, replace, sum, concat (non-commutative), raising}, records outside "
     "any scope and from tasks that outlive their scope; interleaving of the recording tasks through generated virtual "
     "sleeps; each record carries a unique id so loss, duplication, misplacement and reordering are visible; "
